@@ -236,10 +236,9 @@ theorem jn_witness_run :
 theorem jn_abortOK : AbortOK jnDev junos junosAbort := by
   refine ⟨["rollback 0"], "exit", rfl, ?_, ?_⟩
   · intro x hx; simp only [List.mem_singleton] at hx; subst hx; exact inert_of_not_cmd (by decide) (by decide)
-  · intro m hm hn
-    simp only [NestedLevel] at hn
-    subst hn
-    decide
+  · -- in whichever level the nested send_configs runs (`privilege_level` argument of the abort), `exit` ends in exec
+    intro m hm _
+    exact (by decide : ∀ m ∈ names junos, devStep jnDev junos m "exit" = "exec") m hm
 
 /-! ### non-vacuity: the hypotheses of the full theorems are met by IOS-XE with a refusing device -/
 
